@@ -28,33 +28,33 @@ def run(ctx):
     rcf = ctx.rule('R-CASFRESH', 'every retry of a compare-exchange re-tests the refreshed expected value against the '
                    'sentinels the first attempt tested', minimum=0)
     for cfg, fb in sorted(fbs.items()):
-        lib_order.check_cas_fresh(ctx, fb, rcf, lambda f: 'SetCallbackImpl' in f.qn)
-        lib_shape.check(ctx, fb, rsh, lambda qn: 'SetResultImpl' in qn, 2)
-        lib_core.check_commit(ctx, fb, rcm)
+        ctx.guard(lambda: lib_order.check_cas_fresh(ctx, fb, rcf, lambda f: 'SetCallbackImpl' in f.qn))
+        ctx.guard(lambda: lib_shape.check(ctx, fb, rsh, lambda qn: 'SetResultImpl' in qn, 2))
+        ctx.guard(lambda: lib_core.check_commit(ctx, fb, rcm))
         lib_core.check_after_release(ctx, fb, ra, lambda f: any(x in f.file for x in (
             'shared_core', 'unique_core', 'result_core', 'base_core', 'when/', 'drop_core', 'wait_event')))
         seen = 0
         for f in sorted(fb.fn.values(), key=lambda f: f.full):
             if f.qn == 'yaclib::SharedFutureBase::Ready':
                 seen += 1
-                lib_ready.check(ctx, fb, rr, f, 'R-READY %s [%s] :: %s' % (f.qn, cfg, f.cls[:60]))
+                ctx.guard(lambda: lib_ready.check(ctx, fb, rr, f, 'R-READY %s [%s] :: %s' % (f.qn, cfg, f.cls[:60])))
             elif f.n == 'await_ready' and f.clsq in ('yaclib::detail::AwaitSingleAwaiter',
                                                      'yaclib::detail::AwaitAwaiterBase') and f.cfg is not None and \
                     ('true' in f.cta[:1] or 'SharedHandle' in ' '.join(f.cta)):
                 seen += 1
-                lib_ready.check(ctx, fb, rr, f, 'R-READY %s [%s] :: %s' % (f.qn, cfg, f.cls[:60]))
+                ctx.guard(lambda: lib_ready.check(ctx, fb, rr, f, 'R-READY %s [%s] :: %s' % (f.qn, cfg, f.cls[:60])))
         if seen < 1:
             ctx.broken('SharedFutureBase::Ready not instantiated in %s' % cfg)
-        lib_order.check(ctx, fb, cfg, [CB], rw, ro, rc)
-        lib_core.check_shared_walk(ctx, fb, rs)
+        ctx.guard(lambda: lib_order.check(ctx, fb, cfg, [CB], rw, ro, rc))
+        ctx.guard(lambda: lib_core.check_shared_walk(ctx, fb, rs))
         walk = [f for f in fb.by_qn('yaclib::detail::BaseCore::SetResultImpl') if f.fta and f.fta[-1] in ('true', '1')]
-        lib_exec.check_dequeue(ctx, fb, rs, walk)
-        lib_core.check_moveout(ctx, fb, rm)
+        ctx.guard(lambda: lib_exec.check_dequeue(ctx, fb, rs, walk))
+        ctx.guard(lambda: lib_core.check_moveout(ctx, fb, rm))
         if lib_core.check_move_sites(ctx, fb, rm) < 5:
             ctx.broken('R-MOVEOUT.site: fewer than 5 move-out sites found in %s' % cfg)
-        lib_core.check_shared_factories(ctx, fb, rm)
-        lib_core.check_const_observers(ctx, fb, rk)
-        lib_core.check_connect(ctx, fb, rcn)
-        lib_core.check_node_reuse(ctx, fb, rnr)
+        ctx.guard(lambda: lib_core.check_shared_factories(ctx, fb, rm))
+        ctx.guard(lambda: lib_core.check_const_observers(ctx, fb, rk))
+        ctx.guard(lambda: lib_core.check_connect(ctx, fb, rcn))
+        ctx.guard(lambda: lib_core.check_node_reuse(ctx, fb, rnr))
         lib_core.check_nodiscard(ctx, fb, rn, lambda f: 'shared' in f.file or 'connect' in f.file or 'share.hpp' in
                                  f.file or 'split.hpp' in f.file or 'base_core' in f.file or 'result_core' in f.file)
